@@ -202,6 +202,9 @@ def _run(pm: ProgramModel, ctx: Ctx, mb: ModelBuilder, cd: Codec) -> None:
     cd.report("OPS", "stress-shapes", cd.roundtrip(ctc_model(mb, stress_trees(mb))),
               "constraint shapes that stress normal forms", ("constraint", "constraint-count"))
     cd.large(mb, ("AND", "OR", "IMPLIES", "EQUIVALENCE"))
+    cd.polarity(mb, ("AND", "OR", "IMPLIES", "EQUIVALENCE", "REQUIRES", "EXCLUDES"), "OPS")
+    cd.writer_reuse(mb)
+    cd.reader_reuse(mb)
     # PAIRS: every two-way combination of classes of different dimensions on one feature ------------------------------
     from ..interact import Fragment, sweep
     pv = {k: values[k] for k in ("none", "true", "int", "negative-int", "float", "float-integral", "str", "numeric-string",
